@@ -41,6 +41,10 @@ type vKScenario struct {
 	Scripts    [][]int `json:"scripts"` // delays in us before each notification
 	RecvUs     []int   `json:"recv_us"` // receiver's delay before taking the k-th event
 	Burst      int     `json:"burst"`
+	// Stream > 0: first of all Stream notifications StreamGapUs (< IntervalUs) apart (the frr-k8s session manager
+	// notifies on EVERY NewSession / Set / Close): events must keep coming during the stream
+	Stream      int `json:"stream"`
+	StreamGapUs int `json:"stream_gap_us"`
 }
 
 func vKGen(r *rand.Rand) vKScenario {
@@ -174,6 +178,13 @@ func vKRunScenario(sc vKScenario) (*vKRun, map[string]int) {
 	}()
 	calm := 6*interval + 80*time.Millisecond // generous: a loaded machine delays timers by tens of ms
 	patience := 6 * time.Second
+	if sc.Stream > 0 {
+		for i := 0; i < sc.Stream; i++ {
+			time.Sleep(time.Duration(sc.StreamGapUs) * time.Microsecond)
+			d.notify(in)
+		}
+		d.quiet(calm, patience)
+	}
 	var wg sync.WaitGroup
 	for _, ds := range sc.Scripts {
 		wg.Add(1)
@@ -240,6 +251,39 @@ func vKOracle(out *vOut, sc vKScenario, d *vKRun, info map[string]int) {
 			}
 		}
 	}
+	// the event owed to a notification is not pushed back by further notifications (C19_k8s_debounce_not_postponed):
+	// no run of >= 40 accepted notifications, spread over more than 3 debounce intervals plus the consumer's longest
+	// busy period, without a single event
+	{
+		busy := int64(0)
+		for _, us := range sc.RecvUs {
+			if int64(us) > busy {
+				busy = int64(us)
+			}
+		}
+		lim := 3*int64(sc.IntervalUs) + busy
+		cnt := 0
+		since := int64(-1)
+		for i, it := range d.trace {
+			switch it.K {
+			case "KO":
+				cnt, since = 0, -1
+			case "KD":
+				if since < 0 {
+					since = it.At
+				}
+				cnt++
+				if cnt >= 40 && it.At-since > lim {
+					out.Fail("kdeb-starved-by-notifications", fmt.Sprintf("trace item %d: %d notifications were accepted over %d us (debounce interval %d us) and no event was emitted: notifications keep pushing the pending event back",
+						i, cnt, it.At-since, sc.IntervalUs), replay)
+					return
+				}
+			}
+		}
+	}
+	if sc.Stream > 0 {
+		out.Stat("kstream_scenarios", 1)
+	}
 	if info["burst_fast"] == 1 {
 		out.Stat("burst_checked", 1)
 		if info["burst_outs"] != 1 {
@@ -256,6 +300,10 @@ func TestVerifKDeb(t *testing.T) {
 	scs := make([]vKScenario, n)
 	for i := range scs {
 		scs[i] = vKGen(r)
+	}
+	if n >= 3 { // a steady stream of notifications closer together than the debounce interval
+		scs[0] = vKScenario{IntervalUs: 40000, Scripts: [][]int{{0}}, RecvUs: []int{0}, Burst: 3, Stream: 110, StreamGapUs: 5000}
+		scs[1] = vKScenario{IntervalUs: 30000, Scripts: [][]int{{0, 100}}, RecvUs: []int{0, 2000}, Burst: 2, Stream: 110, StreamGapUs: 4000}
 	}
 	type res struct {
 		d    *vKRun
